@@ -315,3 +315,18 @@ PROPS["C10"] = {
          "checks": {"quick": 5000, "thorough": 12000}, "shards": {"quick": 4, "thorough": 16}, "timeout": {"quick": 900, "thorough": 5400}},
     ],
 }
+
+PROPS["C11"] = {
+    "level": "fault_enumeration",
+    "rule": ("runTestCasesForServer with own process starters and a contract-respecting scripted client runner: batches of 1-8 cases; server fault in {start error, stdin write error, stdin close error, stdout empty / truncated at byte k / oversized prefix / garbage, no certificate although TLS, process death after k of n sends (all k), none}; client fault in {send error at send k (all k), a case whose callback carries 'no result', none}; callbacks delivered synchronously, asynchronously or in reverse order after the last send; per-case verdicts pass / deviating result / client-reported error; "
+             "reference-server stderr scripts with feedback lines for names inside and outside the batch, lines without separator, with ': ' inside the message, padded, blank and whitespace lines, with and without trailing newline. "
+             "Oracle after return (+ delivery of outstanding callbacks): outcome keys == batch names, cases not run are setup errors with a failure (never a pass, never absent), answered cases carry the verdict their response implies, no request reaches the client after a start fault, the started process was asked to stop, stdin was closed after the request, side-band map == model attribution and all other non-blank lines forwarded verbatim; return within 60 s. "
+             "NeverAnswers (thorough): a server that never writes is given up on after the fixed 10 s timeout. Non-trivial: fault position strictly inside the batch, or both a server and a client fault."),
+    "assumptions": ["the client runner delivers a callback for every accepted request (C10), possibly after the batch function returned",
+                    "side-band attribution is asserted only on the path that runs to its normal end (on early returns the stderr reader is not awaited)"],
+    "units": [
+        {"name": "C11Batch", "pkg": CC, "test": "TestVerifC11Batch", "kind": "rapid", "race": {"quick": False, "thorough": True},
+         "checks": {"quick": 6000, "thorough": 60000}, "shards": {"quick": 4, "thorough": 16}},
+        {"name": "C11NeverAnswers", "pkg": CC, "test": "TestVerifC11NeverAnswers", "kind": "enum", "only_tiers": ["thorough"]},
+    ],
+}
